@@ -167,6 +167,9 @@ def split_uri(uri):
     return uri, "/"
 
 
+DECOY_NAMES = ["dz", "dy", "dx", "dw", "dv"]
+
+
 def decoy_table(table):
     """Another valid bin table with the same chromosomes and bin count: every coordinate times 3 (a reader that takes the
     bin table from the decoy collection reports other coordinates)."""
@@ -210,7 +213,7 @@ def place(path, table, px, mode="symm", at=None, cols=("count",), names=None, pr
             read_everything(path)
         make_cooler(path, table, px, mode, cols, names, **kw)
         return path
-    make_cooler(path, decoy_table(table), decoy_px(px), mode, cols, names, **kw)
+    make_cooler(path, decoy_table(table), decoy_px(px), mode, cols, DECOY_NAMES, **kw)      # other names, too
     uri = path + "::" + at
     if prior:
         make_cooler(uri, table, prior_px(px), mode, cols, names, mode_="a", **kw)
